@@ -209,6 +209,28 @@ def part_b(_item):
         p = tf['g']['t'].properties['c']
         if (int(p.seconds), int(p.second_fractions)) != RAW[1]:
             bad('write-prop', (name,) + RAW[1], (int(p.seconds), int(p.second_fractions)))
+    # datetimes handed to the writer in other datetime64 units (pandas: [ns]) denote the same instants
+    for unit in ('ns', 'ms', 's', 'm', 'h', 'D'):
+        sub = [0, 500000] if unit in ('ns', 'ms') else [0]
+        step = {'m': 60, 'h': 3600, 'D': 86400}.get(unit, 1)
+        us_vals = [EPOCH + np.timedelta64((sec // step) * step, 's') + np.timedelta64(u, 'us') for sec in SECONDS[:4] for u in sub]
+        vals = np.array(us_vals, dtype='datetime64[us]').astype('datetime64[%s]' % unit)
+
+        def unit_cycle():
+            out = io.BytesIO()
+            with TdmsWriter(out) as w:
+                w.write_segment([RootObject({'p%d' % i: v for i, v in enumerate(vals)}), ChannelObject('g', 't', vals)])
+            tf = H.TdmsFile.read(io.BytesIO(out.getvalue()))
+            return tf['g']['t'][:], [tf.properties['p%d' % i] for i in range(len(vals))]
+        r = H.guarded(unit_cycle)
+        res['counters']['cases'] += 1
+        want = np.array(us_vals, dtype='datetime64[us]')
+        if r[0] != 'ok':
+            bad('unit-raised', 'datetime64[%s] input written' % unit, repr(r)[:200])
+        elif r[1][0].dtype != np.dtype('datetime64[us]') or not np.array_equal(r[1][0], want):
+            bad('unit-data', 'datetime64[%s] channel data read back as the same instants %s' % (unit, want[:2]), str(r[1][0][:2]))
+        elif any(g != w_ for g, w_ in zip(r[1][1], want)):
+            bad('unit-prop', 'datetime64[%s] properties read back as the same instants' % unit, str(r[1][1][:2]))
     return res
 
 
